@@ -163,6 +163,13 @@ def run(ctx):
     _classes = _eqh.rule_H_EQSHAPE(ctx, _st, _cap)
     _eqh.rule_H_ORDER(ctx)
     _eqh.rule_H_HASH(ctx, _st, _classes)
+    # the lexical segmenters advance by the length of the keyword they have just matched (B-LEN's FITS generators): a step taken with another
+    # keyword's length stays in range but cuts the wrong token (seed c02-l)
+    import blen as _blen
+    _blen.rule_B_LEN(ctx)
+    # what the lexical parser accepts as stamp / truth / budget content is a property of the format tables' predicates (seeds c03-k, c11-k: '0'..'9')
+    import tables as _tb
+    _tb.rule_T_PRED(ctx, _tb.Tables(ctx))
     ctx.undecided = ["equality of the two pipelines' values on every string (nesting, leniency on malformed input)"]
     ctx.assumptions = ["rustc HIR/name resolution is correct", "nar_dev_utils 0.42.3 dictionary semantics as read from its source"]
     ctx.trusted = ["rustc nightly front end (HIR, typeck)", "mirfacts driver", "python rule layer"]
